@@ -748,6 +748,15 @@ def setCell (s : TupS α) (i : Int) (c : TCell α) : TupS α × Res Unit :=
 
 def set (s : TupS α) (i : Int) (x : α) : TupS α × Res Unit := s.setCell i (.item x)
 
+/-- `push(t, get(t, k))` / `push_at(t, get(t, k), i)`: the pointer in cell `k` is passed on (on a heap Tuple it is then stored a
+    second time — F13 territory; a Tuple that is not on the heap refuses) -/
+def pushElem (s : TupS α) (k : Int) : TupS α × Res Unit :=
+  match s.getCell k with
+  | .ok c => s.pushCell c | .raised e => (s, .raised e) | .ub => (s, .ub)
+def pushAtElem (s : TupS α) (k i : Int) : TupS α × Res Unit :=
+  match s.getCell k with
+  | .ok c => s.pushAtCell c i | .raised e => (s, .raised e) | .ub => (s, .ub)
+
 /-- the scan of `Tuple_Rem`: `while (items[i] isnt Terminal) { if (eq(item, items[i])) …; i++; }` -/
 def scanEq [BEq α] (s : TupS α) (x : α) : Nat → Nat → Res (Option Nat)
   | 0, _ => .ub
